@@ -30,7 +30,7 @@ class _Tree:
 
 
 class Commit:
-    def __init__(self, repo_name, intid, message, files, time_step):
+    def __init__(self, repo_name, intid, message, files, time_step, when=None):
         self.intid = intid
         s = '%05d' % intid
         hs = sha1((repo_name + s).encode()).hexdigest()
@@ -38,7 +38,7 @@ class Commit:
         self.parents = []
         self.message = message
         self.tree = _Tree(files)
-        self.committed_date = BASE_TIME + intid * time_step
+        self.committed_date = BASE_TIME + intid * time_step if when is None else BASE_TIME + when
         self.author = _Author('Author %d' % (intid % 3))
 
     def __repr__(self):
@@ -60,14 +60,14 @@ class _Remote:
 class Repo:
     """commits: {intid: (parents, message, files)}, tags: {tag: intid}, heads: {branch name: intid}"""
 
-    def __init__(self, name, commits, tags, heads, time_step=3600):
+    def __init__(self, name, commits, tags, heads, time_step=3600, times=None):
         self.name = name
         self.git_dir = '/mock/' + name
         self.working_dir = self.git_dir
         self.all_commits = {}
         for intid in sorted(commits):
             ps, msg, files = commits[intid]
-            self.all_commits[intid] = Commit(name, intid, msg, files, time_step)
+            self.all_commits[intid] = Commit(name, intid, msg, files, time_step, None if times is None else times[intid])
         for intid, (ps, _, _) in commits.items():
             self.all_commits[intid].parents = [self.all_commits[p] for p in ps]
         self.refs = {}
